@@ -13,6 +13,11 @@ case "$GROUP" in
     MOUNT="$VERIF/harness/nsqd=nsqd,$VERIF/harness/cmd/nsqdx=internal/verif/cmd/nsqdx"
     KEEP=""
     ;;
+  lookupx)
+    PKGS="./nsqlookupd ./internal/util"
+    MOUNT="$VERIF/harness/nsqlookupd=nsqlookupd,$VERIF/harness/cmd/lookupx=internal/verif/cmd/lookupx"
+    KEEP=""
+    ;;
   *) echo "unknown group $GROUP"; exit 2;;
 esac
 "$VERIF/bin/vinstr" -repo "$REPO" -out "$OUT/ov" -rt "$VERIF/rt" -mount "$MOUNT" -keep "$KEEP" $PKGS >/dev/null
